@@ -48,6 +48,10 @@ type Violation struct {
 	Msg     string      `json:"msg"`
 	Sig     string      `json:"sig"`
 	LogHash string      `json:"log_hash"`
+	// where in which batch this world ran: the worlds before it in the same process are its history
+	Base  uint64 `json:"base"`
+	From  uint64 `json:"from"`
+	Index uint64 `json:"index"`
 }
 
 // BatchRes is the aggregate a batch process reports.
@@ -136,6 +140,7 @@ func runBatch(path string) {
 		}
 	}
 	knownSeen := map[string]bool{}
+	var curIndex uint64
 	one := func(spec *simrt.Spec, explicit bool) bool {
 		if req.KeepLog {
 			spec.KeepLog = true
@@ -169,7 +174,7 @@ func runBatch(path string) {
 					return true
 				}
 			}
-			res.Violations = append(res.Violations, Violation{Spec: spec, Class: o.Class, Msg: o.Msg, Sig: o.Sig, LogHash: o.LogHash})
+			res.Violations = append(res.Violations, Violation{Spec: spec, Class: o.Class, Msg: o.Msg, Sig: o.Sig, LogHash: o.LogHash, Base: req.Base, From: req.From, Index: curIndex})
 			if len(res.Violations) >= req.MaxViolations {
 				return false
 			}
@@ -183,6 +188,7 @@ func runBatch(path string) {
 	} else {
 		for i := req.From; i < req.To; i++ {
 			seed := simrt.Mix(req.Base, i)
+			curIndex = i
 			if !one(d.Gen(seed, req.Tier), false) {
 				break
 			}
